@@ -102,6 +102,10 @@ class ObservedStream:
                     errno.ECONNRESET, "simulated connection reset")
             if kind == "read-timeout":
                 raise TimeoutError("simulated read timeout")
+            if kind == "read-memoryerror":
+                raise MemoryError("simulated allocation failure in read()")
+            if kind == "read-valueerror":
+                raise ValueError("simulated failure of a decoding layer")
             raise HarnessError("unknown read fault %r" % kind)
         return self._raw.read(*args)
 
